@@ -10,7 +10,8 @@ package engine
 //@   requires typing: forall i int {f.Imports[i]} :: 0 <= i && i < len(f.Imports) ==> f.Imports[i] != nil && f.Imports[i].Path != nil && unquoteOK(f.Imports[i].Path.Value)
 //@   at call (engine.FileMatcher).Match assert [C02,C14] every-file-match-starts-from-empty-data: dmap(arg2) == emptyMap()
 //@   at call (engine.FileMatcher).Match set matchCount = matchCount + ite(result1, 1, 0)
-//@   assigns matchCount
+//@   assigns matchCount, restructured
+//@   ensures [C03,C05] recorded-slots-are-current: ok ==> restructured == noneRestructured()
 //@   ensures ok ==> matchCount == old(matchCount) + 1
 //@   ensures !ok ==> matchCount == old(matchCount)
 //@   ensures ok ==> wfFileMatch(dmap(d)[boxed(global("github.com/uber-go/gopatch/internal/engine.fileMatchKey"))])
@@ -20,8 +21,9 @@ package engine
 //@ func (c *Change) Replace(d, cl) (f, err)
 //@   requires d != nil && c.replacer.NodeReplacer != nil
 //@   requires typing: dmap(d)[boxed(global("github.com/uber-go/gopatch/internal/engine.fileMatchKey"))] != nil ==> wfFileMatch(dmap(d)[boxed(global("github.com/uber-go/gopatch/internal/engine.fileMatchKey"))])
+//@   requires recorded-slots-are-current: restructured == noneRestructured()
 //@   at call (engine.FileReplacer).Replace set replFail = replFail + ite(result1 != nil, 1, 0)
-//@   assigns group(ast), replFail, sitesReplaced
+//@   assigns group(ast), replFail, sitesReplaced, restructured
 //@   ensures err == nil ==> f != nil && replFail == old(replFail)
 //@   ensures err != nil ==> replFail == old(replFail) + 1
 //@   ensures [C09] the-matched-file-object-is-returned: err == nil ==> f == matchedFile(dmap(d))
@@ -313,7 +315,9 @@ package engine
 //@   ensures [C03] recorded-match-data-is-wellformed: ok ==> wfFileMatch(dmap(d1)[boxed(global("github.com/uber-go/gopatch/internal/engine.fileMatchKey"))])
 //@   ensures [C03,C09] the-matched-file-is-recorded: ok ==> matchedFile(dmap(d1)) == file
 //@   ensures d1 != nil
-//@   assigns nothing
+//@   at call golang.org/x/tools/go/ast/astutil.Apply set restructured = noneRestructured()
+//@   ensures [C03,C05] recorded-slots-are-current: ok ==> restructured == noneRestructured()
+//@   assigns restructured
 
 // Every token.Pos field of a pattern is compiled to a PosMatcher (validity comparison), in
 // patterns with and without metavariables in scope alike.
@@ -413,8 +417,10 @@ package engine
 //@   requires d != nil && r.NodeReplacer != nil
 //@   requires typing: dmap(d)[boxed(global("github.com/uber-go/gopatch/internal/engine.fileMatchKey"))] != nil ==> wfFileMatch(dmap(d)[boxed(global("github.com/uber-go/gopatch/internal/engine.fileMatchKey"))])
 //@   at call engine.Replacer.Replace assert [C03] each-site-with-its-own-bindings: arg1 == m.data && arg3 == m.region.Pos
+//@   requires recorded-slots-are-current: restructured == noneRestructured()
 //@   at call engine.Replacer.Replace set sitesReplaced = sitesReplaced + 1
-//@   assigns group(ast), sitesReplaced
+//@   at call (reflect.Value).Set assert [C03,C05] the-slot-written-is-the-slot-that-matched: m.index >= 0 ==> !restructured[m.parent]
+//@   assigns group(ast), sitesReplaced, restructured
 //@   ensures [C03] every-recorded-site-is-processed: err == nil ==> sitesReplaced == old(sitesReplaced) + len(fd.Matches)
 //@   ensures [C06,C09] the-matched-file-object-is-returned: err == nil ==> file == matchedFile(dmap(d))
 //@   ensures [C09] never-another-file: file == nil || file == matchedFile(dmap(d))
@@ -424,7 +430,7 @@ package engine
 
 //@ func (r ImportsReplacer) Replace(d, cl, f) (names, err)
 //@   requires d != nil && f != nil
-//@   assigns group(ast)
+//@   assigns group(ast), restructured
 
 //@ func (c Changelog) Changed(start, end)
 //@   trusted records an interval in a go-intervals set (dependency state, not modelled)
@@ -472,7 +478,7 @@ package engine
 //@   at call golang.org/x/tools/go/ast/astutil.DeleteNamedImport assert [C11] deletes-only-the-matched-import: arg3 == imp && (dmap(d)[boxed(as("github.com/uber-go/gopatch/internal/engine.importKey", imp))] == nil ==> arg2 == "")
 //@   at call golang.org/x/tools/go/ast/astutil.DeleteNamedImport assert [C11] only-if-replaced-or-unused: replaced || !ret("engine.usesNameAsTopLevel", 0)
 //@   at call engine.usesNameAsTopLevel assert [C11] usage-is-checked-under-this-imports-own-package-name: dmap(d)[boxed(as("github.com/uber-go/gopatch/internal/engine.importKey", imp))] == nil ==> arg1 == pathBase(imp)
-//@   assigns group(ast)
+//@   assigns group(ast), restructured
 //@   loop 0
 //@     invariant taken != nil
 //@   loop 1
